@@ -62,6 +62,9 @@ fn scenarios(thorough: bool) -> Vec<Scenario> {
         Scenario { name: "entitlement-shrink", prefix: vec![], cold: false, before: vec![], op: Op::Entitle { parent: p(), child: c(), res: r3("AS65000-AS65005", "10.0.0.0/16", "2001:db8::/48") } },
         Scenario { name: "roll-init", prefix: vec![], cold: false, before: vec![], op: Op::RollInit { ca: c() } },
         Scenario { name: "roll-activate", prefix: vec![Op::RollInit { ca: c() }], cold: false, before: vec![], op: Op::RollActivate { ca: c() } },
+        // a snapshot round (the daily task) after changes: every aggregate's
+        // snapshot and the repository content log's snapshot + change sets
+        Scenario { name: "snapshots-after-changes", prefix: vec![Op::Snapshots, Op::Roa { ca: c(), add: vec!["10.0.4.0/24 => 65000".into()], del: vec![] }], cold: false, before: vec![], op: Op::Snapshots },
     ];
     if thorough {
         v.extend([
